@@ -15,7 +15,12 @@ use std::{
 
 use log::{debug, trace};
 use memmap2::MmapMut;
+#[cfg(not(anydb_verif))]
 use parking_lot::{Condvar, Mutex, RwLock, RwLockReadGuard, RwLockWriteGuard};
+#[cfg(anydb_verif)]
+use parking_lot::{Condvar, Mutex};
+#[cfg(anydb_verif)]
+use verif::locks::{RwLock, RwLockReadGuard, RwLockWriteGuard};
 
 mod disk_usage;
 pub mod error;
@@ -117,6 +122,14 @@ impl Database {
             bg_tasks: Mutex::new(Vec::new()),
             bg_sync: (Mutex::new(false), Condvar::new()),
         }));
+
+        #[cfg(anydb_verif)]
+        {
+            verif::locks::register(&db.0.layout, "layout");
+            verif::locks::register(&db.0.regions, "regions");
+            verif::locks::register(&db.0.mmap, "mmap");
+            verif::locks::register(&db.0.file, "file");
+        }
 
         db.regions_mut().fill(&db)?;
         *db.layout_mut() = Layout::from(&*db.regions());
